@@ -786,10 +786,6 @@ func (vfs *OrefaFS) Rename(oldname, newname string) error {
 	oAbsPath, _ := vfs.Abs(oldname)
 	nAbsPath, _ := vfs.Abs(newname)
 
-	if oAbsPath == nAbsPath {
-		return nil
-	}
-
 	oDirName, oFileName := avfs.SplitAbs(vfs, oAbsPath)
 	nDirName, nFileName := avfs.SplitAbs(vfs, nAbsPath)
 
